@@ -14,6 +14,9 @@ from .rule import resolve_forward_type
 __parsers__ = {}
 
 
+_FORWARD_LOCK = threading.RLock()
+
+
 class BaseParser:
     options_cls = Options
     parser_field_cls = ParserField
@@ -84,7 +87,9 @@ class BaseParser:
         self.name = get_obj_name(obj)
         self.is_local = is_local_var(obj)
         # forward references are resolved lazily at the first parse, which may be made by several threads at once
-        self._forward_lock = threading.RLock()
+        # (one lock for all parsers: a class and its subclasses have parsers of their own but share the pending
+        # reference and field objects, so their first parses must not resolve at the same time either)
+        self._forward_lock = _FORWARD_LOCK
         self._forward_resolving = False
         self.setup()
 
